@@ -5,7 +5,7 @@
  *     through bstr_builder_append_mem(boundary_pieces).  The harness installs logging stubs for all three
  *     (contracts/c14_mpart.h); the log is the ghost state below.  Every ghost is (re)initialised by the
  *     harness, the havoc by the generated entry point only makes forgetting that visible.
- * (b) Witness ghosts and macros for the loop invariants of the leaf helpers. */
+ */
 #ifndef GHOST_C14_H
 #define GHOST_C14_H
 
@@ -22,13 +22,6 @@
     X(size_t, g14_app_n)                  /* set-aside appends in this call */ \
     X(_Bool, g14_carried)                 /* entry state BOUNDARY and the carried candidate is completed by this chunk */ \
     X(size_t, g14_bmp0) X(int, g14_cr0) X(size_t, g14_np0) \
-    X(unsigned, g14_modeseq) X(unsigned, g14_calls) /* line/data mode the stubbed part layer leaves behind, call by call */ \
-    /* (b) leaf helpers */ \
-    X(size_t, g14_len0) X(size_t, g14_w)
-
-/* (b) leaf helpers: payload of an inline bstr; one read of byte i of a read-only bstr (inline or wrapped, RO_BSTR) */
-#define C14_BP(b) ((unsigned char *)(b) + sizeof(bstr))
-#define C14_VB(b, i) ((g_wrapped ? (b)->realptr : C14_BP(b))[i])
-#define C14_BUNUSUAL(c) ((c) == '\'' || (c) == '(' || (c) == ')' || (c) == '+' || (c) == '_' || (c) == ',' || (c) == '.' || (c) == '/' || (c) == ':' || (c) == '=' || (c) == '?')
+    X(unsigned, g14_modeseq) X(unsigned, g14_calls) /* line/data mode the stubbed part layer leaves behind, call by call */
 
 #endif
